@@ -3037,11 +3037,18 @@ class Ev:
                         m_ = re.search(r"\[u8; (\d+)", str(strip(cb["f"]).get("args", "")) + " " + cb.get("ty", ""))
                 if (("TryFrom" in tgt and "try_from" in tgt) or ("TryInto" in tgt and "try_into" in tgt)) and m_:
                     n_ = int(m_.group(1))
-                    def mr(b, n_=n_):
+                    txt_ = tgt + " " + json.dumps(f2)[:4000]
+                    by_ref = re.search(r"&(?:'[\w{}]+ )?(?:mut )?\[u8; %d" % n_, txt_) is not None
+                    def mr(b, n_=n_, by_ref=by_ref):
                         v = p1.apply(b)
                         last = b.steps[-1] if b.steps else None
                         if not (last is not None and last[0] == "bytes" and last[2] == ["n", n_] and v == V(last[1])):
                             raise Opaque("map_res with a conversion that can fail")
+                        if not by_ref and n_ in (2, 4, 8):
+                            # N bytes taken and owned as [u8; N] to be reassembled: the same N bytes as a big-endian
+                            # integer read (same Needed when short); the array is that integer's bytes
+                            b.steps[-1] = ["u", last[1], 8 * n_, "be", last[3]]
+                            return ["array", [canon(["cast", "u8", op(">>", v, N(8 * (n_ - 1 - i_)))]) if i_ < n_ - 1 else canon(["cast", "u8", v]) for i_ in range(n_)]]
                         return ["array", n_, v]   # slice of exactly N bytes -> &[u8; N] cannot fail
                     return ParserFn(mr, fp)
                 raise Opaque("map_res with a function the analysis cannot read")
@@ -3315,6 +3322,28 @@ class Ev:
                     hi, lo_ = vals[0][1]
                     if hi[0] == "idx" and lo_[0] == "idx" and hi[1] == lo_[1] and hi[2] == ["n", 0] and lo_[2] == ["n", 1]:
                         return ["be16", hi[1]]
+                mfb = re.fullmatch(r"core::num::<impl u(16|32|64)>::from_be_bytes", target)
+                if mfb and len(vals) == 1 and vals[0][0] == "array" and isinstance(vals[0][1], list) and len(vals[0][1]) == int(mfb.group(1)) // 8:
+                    # consecutive bytes of one integer B put together again (leading zero bytes allowed):
+                    # (B >> s) truncated to as many bytes as were used
+                    xs = list(vals[0][1])
+                    while xs and xs[0] == ["n", 0]:
+                        xs.pop(0)
+                    def byte_of(x):
+                        if x[0] == "cast" and x[1] == "u8":
+                            y = x[2]
+                            if y[0] == "op" and y[1] == ">>" and y[3][0] == "n":
+                                return y[2], y[3][1]
+                            return y, 0
+                        return None
+                    parts = [byte_of(x) for x in xs]
+                    if xs and all(q is not None for q in parts) and all(q[0] == parts[0][0] for q in parts) \
+                            and all(parts[j][1] == parts[-1][1] + 8 * (len(parts) - 1 - j) for j in range(len(parts))) and parts[0][0][0] == "v":
+                        B_, s_ = parts[0][0], parts[-1][1]
+                        sh_ = op(">>", B_, N(s_)) if s_ else B_
+                        if len(xs) == len(vals[0][1]):
+                            return canon(["cast", "u" + mfb.group(1), sh_])
+                        return op("&", sh_, N((1 << (8 * len(xs))) - 1))
                 return ["call", target, vals]
             if f["k"] == "local" and isinstance(env.get(f["id"]), Closure):
                 clo = env[f["id"]]
